@@ -5,6 +5,7 @@ Driver for C37. Records per case (stream `sched`):
   n <connections>
   cmd start <i> <op> <type> <isLock 0/1> <valid 0/1> <cancelled 0/1> <invalidBy|->
   cmd release <i> | cmd freeze | cmd unfreeze
+  cmd cancel <i>                         the caller cancels the context of call <i> (at a settled moment)
   obs <settled 0/1> <freezeReturned 0/1|-> <inner ids|-> <called ids|-> <returned ids|->    after every cmd
   ret <i> <nil|ctx|perm|other>          error class of every returned call (end of case)
 -/
@@ -57,6 +58,14 @@ def stepRec (st : St) (r : Array String) : Except Verdict St :=
     | "release" =>
       let i := (r.getD 2 "0").toNat?.getD 0
       .ok { st.mdl (fun s => step s (.finish i)) (.differ "release" s!"model: call {i} is not inside the wrapped backend") with frozenBefore := st.frozen }
+    | "cancel" =>
+      let i := (r.getD 2 "0").toNat?.getD 0
+      -- cancelled before the wrapper's context check iff the call has not reached the wrapped backend yet
+      let early := !((st.prev.getD i default).called)
+      let a := st.attrs.getD i (false, true, false)
+      let st := if early then { st with attrs := st.attrs.set! i (a.1, a.2.1, true) } else st
+      .ok (addLabel { st.mdl (fun s => step s (.cancel i)) (.differ "cancel" s!"model: unknown call {i}") with frozenBefore := st.frozen }
+        (if early then (if st.frozen then "cancel-while-parked-frozen" else "cancel-while-waiting") else "cancel-late"))
     | "freeze" =>
       .ok (addLabel { st.mdl (fun s => step s .freeze) (.differ "freeze" "model: already frozen") with pendingFreeze := true, frozenBefore := st.frozen } "freeze")
     | "unfreeze" =>
